@@ -63,6 +63,7 @@ type Contract struct {
 	Covers     []clause
 	Cases      []caseSpec
 	Shared     bool
+	SplitRet   bool
 
 	obj     *types.Func
 	harness *ssa.Function
@@ -186,6 +187,8 @@ func parseContractFile(path string, pkgPath string) ([]*Contract, []string, erro
 				}
 			}
 			cur.Cases = append(cur.Cases, cs)
+		case "split":
+			cur.SplitRet = true
 		case "panics":
 			cur.Panics = rest
 		case "property":
